@@ -210,6 +210,13 @@ pub fn c06(ctx: &Ctx) -> PropResult {
         }
         cases.push(Case::new(Kind::Lex, p.clone()).tag("canonical-lex"));
     }
+    // the end of the input ends the last statement like a newline does: every construct with a brace-less body as the
+    // very last thing, ending in nothing, a blank, a comment, `;` - against the same text with a final newline
+    for last in ["PROCEDURE g() RETURN 5", "PROCEDURE g() RETURN", "EXPORT PROCEDURE g() RETURN 5", "IF (TRUE) x <- 1", "REPEAT 2 TIMES x <- x + 1", "FOR EACH e IN [1] x <- e", "IF (FALSE) x <- 1 ELSE x <- 2", "PROCEDURE g() IF (TRUE) RETURN 1", "REPEAT UNTIL (TRUE) x <- 1", "PROCEDURE g() { RETURN 5 }", "REPEAT 1 TIMES BREAK", "REPEAT 1 TIMES CONTINUE", "IMPORT MOD \"MATH\"", "DISPLAY(x)", "x <- [1, 2]"] {
+        for end in ["", " ", "  // c", ";", " ;", "\t", "\r", " \\\n"] {
+            cases.push(Case::new(Kind::Run, format!("x <- 0\n{last}{end}")).tag("layout").tag("layout:end-of-input").aux(format!("x <- 0\n{last}\nDISPLAY(x)\n").replace("\nDISPLAY(x)\n", "\n")));
+        }
+    }
     // the converse clause: a newline after an ender ends the statement (an extra terminator token appears)
     for (kind, text) in extract::exemplars() {
         if kind == "SoftSemi" || kind == "Eof" {
@@ -329,7 +336,7 @@ pub fn c06(ctx: &Ctx) -> PropResult {
     let stats = run_cases(&ctx.driver, cases, &oracle, &no_known, ctx.threads);
     PropResult {
         stats,
-        rule: format!("{} programs (the repository's tests and examples, generated programs) -> token stream -> {} random admissible renderings each: at every token boundary one of nothing (only next to a bracket or comma), blanks, tab, CR, backslash-newline, and - where the previous token cannot end a statement - newline, CRLF, blank lines or a // comment with non-ASCII text; every terminator as newline, CRLF, comment+newline or ';'; every keyword independently upper or lower case; leading and trailing blank/comment material; implementation-only oracle: same tokens (kinds, literals, text) and same behaviour as the canonical layout; the variant is also run through the model; converse clause: for every token kind a newline (or comment+newline) after it yields a terminator exactly for the kinds of the extracted ender set; the fourth extreme layout leaves out every separator the lexical grammar does not need (a number directly before a word, words next to operators); terminators made of a continuation and comment-only lines; names that begin with a keyword at line starts", programs.len(), per),
+        rule: format!("{} programs (the repository's tests and examples, generated programs) -> token stream -> {} random admissible renderings each: at every token boundary one of nothing (only next to a bracket or comma), blanks, tab, CR, backslash-newline, and - where the previous token cannot end a statement - newline, CRLF, blank lines or a // comment with non-ASCII text; every terminator as newline, CRLF, comment+newline or ';'; every keyword independently upper or lower case; leading and trailing blank/comment material; implementation-only oracle: same tokens (kinds, literals, text) and same behaviour as the canonical layout; the variant is also run through the model; converse clause: for every token kind a newline (or comment+newline) after it yields a terminator exactly for the kinds of the extracted ender set; the fourth extreme layout leaves out every separator the lexical grammar does not need (a number directly before a word, words next to operators); terminators made of a continuation and comment-only lines; names that begin with a keyword at line starts; fifteen constructs as the very last thing of the input ending in nothing / blank / tab / CR / comment / ; / continuation", programs.len(), per),
         exhaustive: false,
         notes: vec![],
     }
@@ -653,6 +660,11 @@ pub fn c09(ctx: &Ctx) -> PropResult {
             cases.push(Case::new(Kind::Parse, p).tag("keyword-prefixed-identifier").aux("accept".into()));
         }
     }
+    // branches without braces followed by ELSE on the same line, brace-less bodies at the very end of the input:
+    // accepted or rejected as the model says
+    for p in crate::props6::unbraced_continuation_family() {
+        cases.push(Case::new(Kind::Parse, p).tag("unbraced-continuation"));
+    }
     // rejections
     for p in [
         "RETURN 1",
@@ -739,7 +751,7 @@ pub fn c09(ctx: &Ctx) -> PropResult {
     let stats = run_cases(&ctx.driver, cases, &oracle, &no_known, ctx.threads);
     PropResult {
         stats,
-        rule: "random derivations of the documented statement grammar (expression statements, IF / ELSE IF / ELSE, REPEAT TIMES, REPEAT UNTIL, FOR EACH, PROCEDURE and EXPORT PROCEDURE with 0-3 parameters, RETURN valued and bare, BREAK / CONTINUE inside loops, the three IMPORT forms, nested bare blocks; depth <= 3, <= 3 statements per block) with an independent terminator choice per statement (newline, ';', '; ', blank line, directly before '}' or the end of input) and block-opening layout; the documented forms of the property's text verbatim; rejection: 31 fixed misplaced / unbalanced / missing-operand programs and every random single bracket deletion / insertion in a valid derivation that a bracket counter proves unbalanced; implementation-only oracle: accepted / rejected with >= 1 diagnostic; syntax trees and diagnostic labels compared with the model; nesting depths 1 .. 200 of every block kind and expression kind, ELSE IF chains and flat programs of 1 .. 300 parts (accepted and run); names that begin with a keyword".into(),
+        rule: "random derivations of the documented statement grammar (expression statements, IF / ELSE IF / ELSE, REPEAT TIMES, REPEAT UNTIL, FOR EACH, PROCEDURE and EXPORT PROCEDURE with 0-3 parameters, RETURN valued and bare, BREAK / CONTINUE inside loops, the three IMPORT forms, nested bare blocks; depth <= 3, <= 3 statements per block) with an independent terminator choice per statement (newline, ';', '; ', blank line, directly before '}' or the end of input) and block-opening layout; the documented forms of the property's text verbatim; rejection: 31 fixed misplaced / unbalanced / missing-operand programs and every random single bracket deletion / insertion in a valid derivation that a bracket counter proves unbalanced; implementation-only oracle: accepted / rejected with >= 1 diagnostic; syntax trees and diagnostic labels compared with the model; nesting depths 1 .. 200 of every block kind and expression kind, ELSE IF chains and flat programs of 1 .. 300 parts (accepted and run); names that begin with a keyword; brace-less branches followed by ELSE on the same line, brace-less bodies at the end of the input (as the model says)".into(),
         exhaustive: false,
         notes: vec![],
     }
